@@ -155,14 +155,17 @@ func genReplay(c *lib.Ctx, dir string) error {
 	big := []int{31, 32, 33, 63, 64, 65, 1055, 1056, 1057, 1088, 2080}
 	cfgs := []mcBounds{
 		{[]int{0, 1, 2}, c.Pick(4, 5), c.Pick(3, 4), "{1, 2}", "{1, 2}", true},
-		{big, c.Pick(3, 4), 3, "{1}", "{2}", false},
+		{big, 3, 3, "{1}", "{2}", false},
+	}
+	if c.Thorough() { // one more level of versions right at the shape-changing lengths
+		cfgs = append(cfgs, mcBounds{[]int{32, 64, 1056, 1088, 2080}, 4, 3, "{1}", "{2}", false})
 	}
 	c.Set("G_configs", cfgs)
 	pre := prefill(2100)
 	var mu sync.Mutex
 	var firstErr error
 	total := 0
-	lib.Parallel(len(cfgs), 2, func(ci int) {
+	lib.Parallel(len(cfgs), 3, func(ci int) {
 		b := cfgs[ci]
 		r, err := c.TLC(fmt.Sprintf("MCPVector(bases=%v)", b.Bases), lib.TLCRun{Dir: dir, Module: "MCPVector", Workers: 2, Timeout: 14 * time.Minute, HeapGB: 6,
 			Files: map[string][]byte{"MCPVector.cfg": b.cfg()}})
